@@ -360,6 +360,10 @@ for _name, _lo, _hi, _spec in (("lowpass", NONE, TFHI, f"FILT(i, order, NOWN, fc
                                              "(sosfiltfilt) of the whole series with the Butterworth design for the series' own sampling rate"),
                               module_env=_TS_ENV, registry=_TS_REG, label=_Q + f"butterworth_filter[{_name}]", clauses=["zero-phase Butterworth filtering with the corners given"]))
 
+# preprocess(): the routine registered for the settings' preprocessing method, called once with the caller's two arguments
+import contracts.dispatch as _DISPATCH
+TASKS += _DISPATCH.PREPROCESS_TASKS
+
 META = dict(
     level="other",
     explanation="proved: TimeSeries.split (interval count under the float model, tiling, shared boundary sample, error case, frame); "
